@@ -13,12 +13,16 @@ Property theorems (all n, all thread counts p ≥ 1, any strict weak order, both
   * `merge_back_all_schedules`         — between two barriers: threads with disjoint write windows reading only
                                          the temporaries commute, every interleaving gives the same range
   * `temporaries_ledger_balanced`      — n objects constructed in raw storage, n destroyed
+  * `model_refines_spec`               — END TO END: the executed model `pmsort` returns the stable sort, adjacent
+                                         merge windows, balanced ledger — all n, threads ≥ 1, both splittings;
+                                         only hypothesis about C08: `PartSpec` for the temporaries (exact splitting)
   * `small_input_untouched`            — n ≤ 1: nothing happens
 Local `std::(stable_)sort` and the per-thread `multiway_merge_base` (C05) are their specifications;
 offset vectors of exact splitting are assumed to satisfy the C08 specification.
 -/
 import TlxVerif.Proofs.C06Sampling
 import TlxVerif.Proofs.C07Phases
+import TlxVerif.Proofs.C06Refine
 import TlxVerif.Proofs.C08Checker
 namespace TlxVerif.C06
 open TlxVerif.C08 (StrictWeak IsPartition)
@@ -113,9 +117,20 @@ theorem temporaries_ledger_balanced (n p : Nat) (hp : 1 ≤ p) :
 
 theorem small_input_untouched (P : Params) (input : List Elem) (h : input.length ≤ 1) :
     pmsort P input = .ok { out := input, copyWindows := [], mergeWindows := [], constructed := 0, destroyed := 0 } := by
-  unfold pmsort
-  simp [h]
-  rfl
+  rw [pmsort_unfold, if_pos h]
+
+/-- **End to end** (closes the former OPEN item `pmsort_refines_spec`): the executable model of
+`parallel_mergesort_base` — the function the driver runs — succeeds and leaves the stable sort of the input;
+every temporary object it constructs is destroyed; for n ≥ 2 the per-thread merge windows are adjacent and
+tile `[0, n)` and exactly n temporaries are constructed.  All inputs whose elements carry their positions,
+threads ≥ 1, oversampling ≥ 1, exact and sampling splitting. -/
+theorem model_refines_spec (P : Params) (hlt : StrictWeak P.lt) (input : List Elem) (hpos : input.Pairwise posLt)
+    (hthr : 1 ≤ P.threads) (hosf : 1 ≤ P.osf)
+    (hpart : P.exact = true → C07.PartSpec P.lt
+      ((slicesBy input (startsOf input.length (usedThreads P input.length))).map (sortStable P.lt))) :
+    ∃ r, pmsort P input = .ok r ∧ r.out = sortStable P.lt input ∧ r.constructed = r.destroyed ∧
+      (2 ≤ input.length → C07.TileFrom 0 input.length r.mergeWindows ∧ r.constructed = input.length) :=
+  pmsort_refines_spec P hlt input hpos hthr hosf hpart
 
 /-! ### non-vacuity: 7 elements, 3 threads, two keys -/
 
@@ -144,9 +159,8 @@ example : ((chunkRows ((slicesBy exInput (startsOf exInput.length 3)).map (sortS
 example : sortStable exLt exInput =
     [⟨1, 0, 1⟩, ⟨1, 0, 3⟩, ⟨1, 0, 6⟩, ⟨2, 0, 2⟩, ⟨2, 0, 5⟩, ⟨3, 0, 0⟩, ⟨3, 0, 4⟩] := by decide
 
--- OPEN: pmsort_refines_spec — `pmsort P input = .ok r` with `r.out = sortStable lt input` for all inputs:
---   the model's glue (building `pieces` from `partitionM` / `lowerBound` results in `for` loops, `assemble`) is
---   not proved equal to `chunkRows`; it is exercised by the correspondence.  Also needs the C08 OPEN item.
+-- (the former OPEN item pmsort_refines_spec is closed by `model_refines_spec`; its hypothesis `PartSpec` is the
+--  C08 statement `msp_correct` for the locally sorted slices.)
 -- OPEN: schedule_independence — `merge_back_all_schedules` proves it per phase for the asserted window
 --   footprints; that the phases are separated (ThreadBarrierMutex is a barrier, C11) and that the real code's
 --   accesses stay inside those footprints is checked by the harness (per-position writer / copier, counts)
